@@ -22,13 +22,30 @@ func main() {
 		ns = append(ns, n)
 	}
 	ns = append(ns, 31, 32, 33, 63, 64, 65, 100, 127, 128, 129, 257) // large-size family
+	type shape struct{ n, spare int }
+	var shapes []shape
 	for _, n := range ns {
+		shapes = append(shapes, shape{n, 0})
+		// the same lengths inside a larger backing array (spare capacity holding other values): a
+		// slice built with append or re-sliced from a buffer, which is what callers usually pass
+		if n <= maxN {
+			shapes = append(shapes, shape{n, 1}, shape{n, 3}, shape{n, n + 1})
+		} else {
+			shapes = append(shapes, shape{n, 5})
+		}
+	}
+	for _, sh := range shapes {
+		n := sh.n
 		var s []int
-		if n > 0 {
-			s = make([]int, n)
+		if n > 0 || sh.spare > 0 {
+			s = make([]int, n+sh.spare)
 			for i := range s {
 				s[i] = 100 + i
 			}
+			for i := n; i < len(s); i++ {
+				s[i] = -7 - i
+			}
+			s = s[:n]
 		}
 		orig := append([]int{}, s...)
 		sizes := []int{}
@@ -45,7 +62,7 @@ func main() {
 		}
 		sizes = append(sizes, math.MaxInt/2, math.MaxInt/2+1, math.MaxInt32, math.MaxInt32+1, 1<<16, 1<<40)
 		for _, size := range sizes {
-			rp := map[string]any{"n": n, "size": size}
+			rp := map[string]any{"n": n, "size": size, "spare_capacity": sh.spare}
 			e.Input(n%size >= 2 || size > n)
 			if n == 5 && size == 3 {
 				r.Sample(rp)
@@ -107,7 +124,7 @@ func main() {
 			}
 		}
 		// ---- Pairs / PairsFunc
-		rp := map[string]any{"n": n, "fn": "Pairs"}
+		rp := map[string]any{"n": n, "fn": "Pairs", "spare_capacity": sh.spare}
 		var want [][2]int
 		for i := 0; i+1 < n; i++ {
 			want = append(want, [2]int{orig[i], orig[i+1]})
@@ -124,7 +141,7 @@ func main() {
 			e.Fail("PairsFunc|sequence", rp, "PairsFunc(n=%d) called with %v, want %v", n, pf, want)
 		}
 	}
-	e.Finish(fmt.Sprintf("every slice length n in 0..%d x every size in 1..%d, position-tagged elements; partition laws for Chunk/ChunkFunc/Windowed/WindowedFunc/Pairs/PairsFunc; non-trivial = remainder >= 2 or size > n", maxN, maxN+2))
+	e.Finish(fmt.Sprintf("every slice length n in 0..%d x every size in 1..%d, position-tagged elements, each length with 0, 1, 3 and n+1 elements of spare capacity behind it; partition laws for Chunk/ChunkFunc/Windowed/WindowedFunc/Pairs/PairsFunc; non-trivial = remainder >= 2 or size > n", maxN, maxN+2))
 }
 
 func refChunks(s []int, size int) [][]int {
